@@ -67,6 +67,26 @@ CLAIMED = {
         "all package graphs is not decided.",
    technique="static analysis: who-may-call on resolved callees (MIR) + must-check-after-conversion + guard-dominates-insert + loop provenance",
    ref="DESIGN.md section 4, C16"),
+ "C10": dict(
+   text="Go's arithmetic itself is outside the repository. Decided: every single-width match arm in all crates is width-consistent "
+        "(~400 arms), signed/unsigned literals use the matching parser and the generic parse helpers have no fixed-width intermediate, the "
+        "operator chain lexeme -> token -> syntax kind -> BinaryOp -> Go operator -> printed text is the identity, printf verbs fit the Go "
+        "type, and the lexer's suffix regexes are a bijection with the numeric widths.",
+   technique="static analysis: width-tag consistency lint over match arms + table extraction and composition",
+   ref="DESIGN.md section 4, C10"),
+ "C11": dict(
+   text="Static decision of the parser tables against the documented grammar: extracted binding powers satisfy the precedence order, "
+        "strict tier separation and left associativity; every parsed operator is lowered to itself; call arguments must not cross "
+        "parentheses; admitted escapes must be decoded; string delimiters are stripped exactly and uniformly. Round trips over generated "
+        "trees are not executed.",
+   technique="static analysis: table extraction (binding powers, T! macro, lexer attributes, lowering arms) checked against a constant oracle, shape rules on lowering arms",
+   ref="DESIGN.md section 4, C11"),
+ "C12": dict(
+   text="Static decision of the mechanisms behind losslessness: TokenKind/MySyntaxKind coincide index for index (transmute bound = last "
+        "variant), each emitted token advances the cursor exactly once, the top-level loop runs to the real end of input, the input text "
+        "reaches logos unchanged, and the parser constructs no text range of its own (resolved calls, lexer as positive control).",
+   technique="static analysis: table agreement + pairing rule in build_tree + who-may-call on resolved callees (MIR)",
+   ref="DESIGN.md section 4, C12"),
  "C13": dict(
    text="Static decision that no nondeterminism source can reach compiler output: every resolved iteration over a std/im "
         "HashMap/HashSet is followed to its sink (order-free / sorted / ordered=violation), read_dir listings and "
